@@ -11,31 +11,263 @@ namespace Tmcg.Rbc
 
 variable (H : Int → Int) (T : Tag → Int)
 
+/-! ### helper lemmas: what one pass of the loop may do to the state -/
+
+/-- the configuration fields agree -/
+structure Cfg (p q : Party) : Prop where
+  ID : q.ID = p.ID
+  fifo : q.fifo = p.fifo
+  n : q.n = p.n
+  t : q.t = p.t
+  j : q.j = p.j
+  fifoSkip : q.fifoSkip = p.fifoSkip
+
+theorem Cfg.refl (p : Party) : Cfg p p := ⟨rfl, rfl, rfl, rfl, rfl, rfl⟩
+
+theorem Cfg.trans {p q r : Party} (h1 : Cfg p q) (h2 : Cfg q r) : Cfg p r :=
+  ⟨h2.ID.trans h1.ID, h2.fifo.trans h1.fifo, h2.n.trans h1.n, h2.t.trans h1.t, h2.j.trans h1.j,
+   h2.fifoSkip.trans h1.fifoSkip⟩
+
+/-- same configuration and same counters -/
+def Same (p q : Party) : Prop := Cfg p q ∧ q.deliverS = p.deliverS
+
+/-- what one pass may do: nothing to the counters (and no delivery), or one well-formed delivery -/
+def Spec (p : Party) (r : Result) : Prop :=
+  Cfg p r.party ∧
+  ((r.party.deliverS = p.deliverS ∧ ∀ who m, r.out ≠ .delivered who m) ∨
+   (∃ (msg : Msg) (m : Int), msg.id = p.ID ∧ (p.fifo = true → msg.seq = p.dS msg.sender.toNat) ∧
+      aGet r.party.mbar msg.tag = some m ∧ r.out = .delivered msg.sender.toNat m ∧
+      r.party.deliverS = p.deliverS.set msg.sender.toNat (p.dS msg.sender.toNat + 1)))
+
+theorem spec_of_same {p q : Party} {r : Result} (h : Same p q) (hs : Spec q r) : Spec p r := by
+  obtain ⟨hc, hd⟩ := h
+  obtain ⟨hc2, hs⟩ := hs
+  refine ⟨hc.trans hc2, ?_⟩
+  have hdS : ∀ w, q.dS w = p.dS w := fun w => by simp [Party.dS, hd]
+  rcases hs with ⟨h1, h2⟩ | ⟨msg, m, h1, h2, h3, h4, h5⟩
+  · exact Or.inl ⟨h1.trans hd, h2⟩
+  · refine Or.inr ⟨msg, m, h1.trans hc.ID, ?_, h3, h4, ?_⟩
+    · intro hf; rw [← hdS]; exact h2 (hc.fifo.trans hf)
+    · rw [h5, hd, hdS]
+
+theorem spec_stop {p q : Party} (s : Sent) (h : Same p q) : Spec p ⟨q, s, .idle⟩ :=
+  ⟨h.1, Or.inl ⟨h.2, fun _ _ hh => by cases hh⟩⟩
+
+theorem spec_sent {p : Party} {r : Result} (s : Sent) (h : Spec p r) :
+    Spec p { r with sent := s } := h
+
+theorem spec_dob (p : Party) (msg : Msg) (s : Sent) : Spec p (deliverOrBuffer p msg s) := by
+  unfold deliverOrBuffer
+  simp only []
+  split
+  · rename_i hc
+    split
+    · exact ⟨Cfg.refl p, Or.inl ⟨rfl, fun _ _ hh => by cases hh⟩⟩
+    · rename_i m hm
+      refine ⟨⟨rfl, rfl, rfl, rfl, rfl, rfl⟩, Or.inr ⟨msg, m, hc.1, ?_, hm, rfl, rfl⟩⟩
+      intro hf
+      rcases hc.2 with h | h
+      · exact h.2
+      · exact absurd hf h
+  · exact ⟨⟨rfl, rfl, rfl, rfl, rfl, rfl⟩, Or.inl ⟨rfl, fun _ _ hh => by cases hh⟩⟩
+
+theorem spec_ite {p : Party} {c : Prop} [Decidable c] {a b : Result}
+    (ha : c → Spec p a) (hb : ¬c → Spec p b) : Spec p (if c then a else b) := by
+  split
+  · exact ha ‹_›
+  · exact hb ‹_›
+
+theorem same_p3 {p q p2 p3 : Party} {o : Option Int} {d : Int} (hq : Same p q) (h2 : Same p p2)
+    (h : (match o with
+          | none => some q
+          | some db => if db ≠ d then none else some p2) = some p3) : Same p p3 := by
+  cases o with
+  | none => simp only [Option.some.injEq] at h; exact h ▸ hq
+  | some db =>
+    simp only at h
+    split at h
+    · cases h
+    · simp only [Option.some.injEq] at h; exact h ▸ h2
+
+theorem spec_dob_sent {p q : Party} (msg : Msg) (s s' : Sent) (h : Same p q) :
+    Spec p { deliverOrBuffer q msg s with sent := s' } :=
+  spec_of_same h (spec_dob q msg s)
+
+section
+attribute [local irreducible] deliverOrBuffer
+
+theorem dispatch_spec (p : Party) (sent0 : Sent) (l : Nat) (msg : Msg) :
+    Spec p (dispatch H T p sent0 l msg) := by
+  unfold dispatch
+  simp only []
+  repeat' first
+    | exact spec_stop _ ⟨⟨rfl, rfl, rfl, rfl, rfl, rfl⟩, rfl⟩
+    | exact spec_dob_sent _ _ _ ⟨⟨rfl, rfl, rfl, rfl, rfl, rfl⟩, rfl⟩
+    | (apply spec_ite <;> intro _)
+    | (have h := ‹(_ : Option Party) = some _›
+       repeat' split at h
+       all_goals cases h)
+    | split
+
+end
+
+theorem findFirst_some {α} (q : α → Bool) : ∀ (l : List α) (x : α) (r : List α),
+    findFirst q l = some (x, r) → q x = true
+  | [], x, r, h => by simp [findFirst] at h
+  | y :: ys, x, r, h => by
+    unfold findFirst at h
+    split at h
+    · rename_i hq
+      simp only [Option.some.injEq, Prod.mk.injEq] at h
+      exact h.1 ▸ hq
+    · split at h
+      · cases h
+      · rename_i y' r' heq
+        simp only [Option.some.injEq, Prod.mk.injEq] at h
+        exact h.1 ▸ findFirst_some q ys y' r' heq
+
+theorem phaseBuffer_inl (p : Party) (r : Result) (h : phaseBuffer p = .inl r) : Spec p r := by
+  unfold phaseBuffer at h
+  split at h
+  · rename_i e rest hf
+    have hd := findFirst_some _ _ _ _ hf
+    simp only [deliverable, Bool.and_eq_true, Bool.or_eq_true, Bool.not_eq_true', decide_eq_true_eq] at hd
+    split at h
+    · cases h
+      exact ⟨Cfg.refl p, Or.inl ⟨rfl, fun _ _ hh => by cases hh⟩⟩
+    · rename_i m hm
+      cases h
+      refine ⟨⟨rfl, rfl, rfl, rfl, rfl, rfl⟩, Or.inr ⟨e, m, hd.1, ?_, hm, rfl, rfl⟩⟩
+      intro hf
+      rcases hd.2 with h | h
+      · rw [hf] at h; cases h
+      · exact h
+  · cases h
+
+theorem phaseBuffer_inr (p p1 : Party) (sent : Sent) (h : phaseBuffer p = .inr (p1, sent)) :
+    Cfg p p1 ∧ ((p.fifo = true → p.fifoSkip = 0) → p1.deliverS = p.deliverS) := by
+  unfold phaseBuffer at h
+  split at h
+  · split at h <;> cases h
+  · simp only [Sum.inr.injEq, Prod.mk.injEq] at h
+    obtain ⟨h1, -⟩ := h
+    subst h1
+    refine ⟨⟨rfl, rfl, rfl, rfl, rfl, rfl⟩, ?_⟩
+    intro hskip
+    have hc : ¬(p.fifo = true ∧ p.fifoSkip > 0) := fun hc => by
+      have := hskip hc.1
+      omega
+    simp only [hc, if_false]
+
+theorem step_cfg (p : Party) (pi : List Nat) (inp : Option (Nat × Msg)) :
+    Cfg p (step H T p pi inp).party := by
+  unfold step
+  split
+  · rename_i r h
+    exact (phaseBuffer_inl p r h).1
+  · rename_i p1 sent h
+    have hc := (phaseBuffer_inr p p1 sent h).1
+    split
+    · rename_i l msg bm _
+      have hd := (dispatch_spec H T { p1 with bufMsg := bm } sent l msg).1
+      have hq : Cfg p1 { p1 with bufMsg := bm } := ⟨rfl, rfl, rfl, rfl, rfl, rfl⟩
+      exact hc.trans (hq.trans hd)
+    · split
+      · exact hc
+      · rename_i l msg
+        exact hc.trans (dispatch_spec H T p1 sent l msg).1
+
+theorem step_spec (p : Party) (pi : List Nat) (inp : Option (Nat × Msg))
+    (hskip : p.fifo = true → p.fifoSkip = 0) : Spec p (step H T p pi inp) := by
+  unfold step
+  split
+  · rename_i r h
+    exact phaseBuffer_inl p r h
+  · rename_i p1 sent h
+    have hs : Same p p1 := ⟨(phaseBuffer_inr p p1 sent h).1, (phaseBuffer_inr p p1 sent h).2 hskip⟩
+    split
+    · rename_i l msg bm _
+      have hd := dispatch_spec H T { p1 with bufMsg := bm } sent l msg
+      have hq : Same p { p1 with bufMsg := bm } := ⟨hs.1.trans ⟨rfl, rfl, rfl, rfl, rfl, rfl⟩, hs.2⟩
+      exact spec_of_same hq hd
+    · split
+      · exact spec_stop _ hs
+      · rename_i l msg
+        exact spec_of_same hs (dispatch_spec H T p1 sent l msg)
+
 /-- `Deliver` never changes the channel or the configuration -/
 theorem step_keeps_config (p : Party) (pi : List Nat) (inp : Option (Nat × Msg)) :
     let r := step H T p pi inp
     r.party.ID = p.ID ∧ r.party.fifo = p.fifo ∧ r.party.n = p.n ∧ r.party.t = p.t ∧
     r.party.j = p.j ∧ r.party.fifoSkip = p.fifoSkip := by
-  sorry
+  intro r
+  have h := step_cfg H T p pi inp
+  exact ⟨h.ID, h.fifo, h.n, h.t, h.j, h.fifoSkip⟩
 
-/-- what a delivery is: some message of the *current* channel from sender `who`, in FIFO mode
-    with exactly the expected sequence number, whose cached payload is the returned value; the
-    expected sequence number of `who` advances by one and no other counter moves -/
-theorem step_delivery_spec (p : Party) (pi : List Nat) (inp : Option (Nat × Msg)) (who : Nat) (m : Int)
-    (hlen : p.deliverS.length = p.n)
+/- `step_delivery_spec` (first attempt, not a theorem): "a delivery is some message of the
+   *current* channel from sender `who`, in FIFO mode with exactly the expected sequence number,
+   whose cached payload is the returned value; the expected sequence number of `who` advances by
+   one and no other counter moves".  This is FALSE in FIFO mode with `fifo_skip > 0`: the
+   bookkeeping of `phaseBuffer` (`skipAdjust`) may move the counter of a sender `i` to `min_s[i]`
+   in the same iteration in which a message of ANOTHER sender is delivered through
+   `deliverOrBuffer`.  Machine-checked counterexample: `step_delivery_spec_refuted`; the statement
+   that holds (hypothesis `p.fifo = true → p.fifoSkip = 0`, the library's default): 
+   `step_delivery_spec'`. -/
+
+/-- the state of the counterexample to `step_delivery_spec`: `n = 4`, `t = 1`, FIFO mode with
+    `fifo_skip = 1`, two buffered messages of sender 0 with a gap (slots 5 and 10 while slot 1 is
+    expected, so `skipAdjust` moves `deliver_s[0]` to 5), and an agreed digest for slot 1 of
+    sender 1 -/
+def cexParty : Party :=
+  { Party.init 4 1 2 1 with
+    deliverBuf := [⟨0, 0, 5, rReady, 0⟩, ⟨0, 0, 10, rReady, 0⟩],
+    dbar := [(⟨0, 1, 1⟩, 107)] }
+
+/-- `step_delivery_spec` does not hold: on `cexParty` the r-answer `(0, 1, 1, 7)` from party 3
+    (with `H x = x + 100`) is delivered (`delivered 1 7`) and the counters become `[5, 2, 1, 1]`,
+    not `[1, 2, 1, 1]` -/
+theorem step_delivery_spec_refuted :
+    ¬ ∀ (H : Int → Int) (T : Tag → Int) (p : Party) (pi : List Nat) (inp : Option (Nat × Msg))
+        (who : Nat) (m : Int),
+        p.deliverS.length = p.n →
+        (step H T p pi inp).out = .delivered who m →
+        ∃ msg : Msg, msg.id = p.ID ∧ msg.sender.toNat = who ∧
+          (p.fifo = true → msg.seq = p.dS who) ∧
+          aGet (step H T p pi inp).party.mbar msg.tag = some m ∧
+          (step H T p pi inp).party.deliverS = p.deliverS.set who (p.dS who + 1) := by
+  intro h
+  obtain ⟨msg, -, -, -, -, h5⟩ :=
+    h (fun x => x + 100) (fun _ => 0) cexParty [] (some (3, ⟨0, 1, 1, rAnswer, 7⟩)) 1 7
+      (by decide) (by decide)
+  revert h5
+  decide
+
+/-- corrected version of `step_delivery_spec`: the counters are only guaranteed to move in one
+    place when the skip heuristic is off (`fifo_skip = 0`) or the channel is not FIFO -/
+theorem step_delivery_spec' (p : Party) (pi : List Nat) (inp : Option (Nat × Msg)) (who : Nat) (m : Int)
+    (hskip : p.fifo = true → p.fifoSkip = 0)
     (hout : (step H T p pi inp).out = .delivered who m) :
     ∃ msg : Msg, msg.id = p.ID ∧ msg.sender.toNat = who ∧
       (p.fifo = true → msg.seq = p.dS who) ∧
       aGet (step H T p pi inp).party.mbar msg.tag = some m ∧
       (step H T p pi inp).party.deliverS = p.deliverS.set who (p.dS who + 1) := by
-  sorry
+  obtain ⟨-, hs⟩ := step_spec H T p pi inp hskip
+  rcases hs with ⟨-, h2⟩ | ⟨msg, m', h1, h2, h3, h4, h5⟩
+  · exact absurd hout (h2 who m)
+  · rw [h4] at hout
+    injection hout with hw hm
+    subst hw; subst hm
+    exact ⟨msg, h1, rfl, h2, h3, h5⟩
 
 /-- without a delivery the expected sequence numbers do not move (FIFO mode, `fifo_skip = 0`) -/
 theorem step_no_delivery_keeps_counters (p : Party) (pi : List Nat) (inp : Option (Nat × Msg))
     (hskip : p.fifoSkip = 0)
     (hout : ∀ who m, (step H T p pi inp).out ≠ .delivered who m) :
     (step H T p pi inp).party.deliverS = p.deliverS := by
-  sorry
+  obtain ⟨-, hs⟩ := step_spec H T p pi inp (fun _ => hskip)
+  rcases hs with ⟨h1, -⟩ | ⟨msg, m', -, -, -, h4, -⟩
+  · exact h1
+  · exact absurd h4 (hout _ _)
 
 /-- a run of `Deliver` calls of one party within one channel: inputs are whatever the network
     hands over; returns the final state and the deliveries `(sender, expected seq before, value)` -/
@@ -48,6 +280,80 @@ def runSteps (p : Party) : List (List Nat × Option (Nat × Msg)) → Party × L
     | .delivered who m => (q, (who, p.dS who, m) :: ds)
     | _ => (q, ds)
 
+theorem runSteps_cons_snd (p : Party) (pi : List Nat) (inp : Option (Nat × Msg))
+    (rest : List (List Nat × Option (Nat × Msg))) :
+    (runSteps H T p ((pi, inp) :: rest)).2 =
+      match (step H T p pi inp).out with
+      | .delivered who m => (who, p.dS who, m) :: (runSteps H T (step H T p pi inp).party rest).2
+      | _ => (runSteps H T (step H T p pi inp).party rest).2 := by
+  simp only [runSteps]
+  split <;> rfl
+
+theorem coe_range_map (c : Int) (n : Nat) :
+    (List.range n).map (fun k => c + (k : Int)) = (List.range n).map (fun k : Nat => c + (k : Int)) := by
+  simp only [List.pure_def, List.bind_eq_flatMap, ← List.map_eq_flatMap, List.map_map]
+  rfl
+
+theorem consec_cons (c : Int) (l : List Int)
+    (h : l = (List.range l.length).map (fun k : Nat => c + 1 + (k : Int))) :
+    c :: l = (List.range (c :: l).length).map (fun k : Nat => c + (k : Int)) := by
+  rw [List.length_cons, List.range_succ_eq_map, List.map_cons, List.map_map]
+  simp only [Nat.cast_zero, add_zero, List.cons.injEq, true_and]
+  rw [h, List.length_map, List.length_range]
+  apply List.map_congr_left
+  intro k _
+  simp only [Function.comp, Nat.cast_succ]
+  omega
+
+/-- the sequence numbers of the deliveries from `who` in a run -/
+def seqsOf (who : Nat) (ds : List (Nat × Int × Int)) : List Int :=
+  (ds.filter (fun d => d.1 = who)).map (fun d => d.2.1)
+
+theorem fifo_order_aux (who : Nat) : ∀ (ins : List (List Nat × Option (Nat × Msg))) (p : Party),
+    p.fifo = true → p.fifoSkip = 0 → p.deliverS.length = p.n → who < p.n →
+    seqsOf who (runSteps H T p ins).2
+      = (List.range (seqsOf who (runSteps H T p ins).2).length).map
+          (fun k : Nat => p.dS who + (k : Int))
+  | [], p, _, _, _, _ => by simp [runSteps, seqsOf]
+  | (pi, inp) :: rest, p, hfifo, hskip, hlen, hwho => by
+    obtain ⟨hc, hs⟩ := step_spec H T p pi inp (fun _ => hskip)
+    rw [runSteps_cons_snd]
+    have ih := fifo_order_aux who rest (step H T p pi inp).party (hc.fifo.trans hfifo)
+      (hc.fifoSkip.trans hskip)
+    generalize (step H T p pi inp).party = q at hc hs ih ⊢
+    generalize (step H T p pi inp).out = o at hs ⊢
+    rcases hs with ⟨h1, h2⟩ | ⟨msg, m', -, -, -, h4, h5⟩
+    · have ih' := ih (by rw [h1, hc.n]; exact hlen) (by rw [hc.n]; exact hwho)
+      have hd : q.dS who = p.dS who := by simp [Party.dS, h1]
+      rw [hd] at ih'
+      cases o with
+      | delivered w m => exact absurd rfl (h2 w m)
+      | idle => exact ih'
+      | threw => exact ih'
+    · subst h4
+      have ih' := ih (by rw [h5, List.length_set, hc.n]; exact hlen) (by rw [hc.n]; exact hwho)
+      simp only []
+      by_cases hw : msg.sender.toNat = who
+      · have hd : q.dS who = p.dS who + 1 := by
+          simp only [Party.dS, h5, hw]
+          rw [List.getD_eq_getElem?_getD, List.getElem?_set_self (by omega)]
+          rfl
+        rw [hd] at ih'
+        have : seqsOf who ((msg.sender.toNat, p.dS msg.sender.toNat, m') :: (runSteps H T q rest).2)
+            = p.dS who :: seqsOf who (runSteps H T q rest).2 := by
+          simp [seqsOf, hw]
+        rw [this]
+        exact consec_cons _ _ ih'
+      · have hd : q.dS who = p.dS who := by
+          unfold Party.dS
+          rw [h5, List.getD_eq_getElem?_getD, List.getD_eq_getElem?_getD, List.getElem?_set_ne hw]
+        rw [hd] at ih'
+        have : seqsOf who ((msg.sender.toNat, p.dS msg.sender.toNat, m') :: (runSteps H T q rest).2)
+            = seqsOf who (runSteps H T q rest).2 := by
+          simp [seqsOf, hw]
+        rw [this]
+        exact ih'
+
 /-- **FIFO order and no duplication** (FIFO mode, `fifo_skip = 0`): in every run, whatever
     arrives, the deliveries from one sender carry consecutive sequence numbers starting at the
     expected one — so no slot is delivered twice and none out of order -/
@@ -57,7 +363,27 @@ theorem fifo_order (p : Party) (hfifo : p.fifo = true) (hskip : p.fifoSkip = 0)
     ((runSteps H T p ins).2.filter (fun d => d.1 = who)).map (fun d => d.2.1)
       = (List.range ((runSteps H T p ins).2.filter (fun d => d.1 = who)).length).map
           (fun k => p.dS who + (k : Int)) := by
-  sorry
+  have h := fifo_order_aux H T who ins p hfifo hskip hlen hwho
+  rw [coe_range_map]
+  simpa only [seqsOf, List.length_map] using h
+
+theorem takeMatching_some (ID : Int) : ∀ (vs is : List Int) (m : Int) (vs' is' : List Int),
+    takeMatching ID vs is = some (m, vs', is') →
+    ∃ k, vs.getD k 0 = m ∧ is.getD k 0 = ID ∧ k < vs.length
+  | [], _, _, _, _, h => by simp [takeMatching] at h
+  | _ :: _, [], _, _, _, h => by simp [takeMatching] at h
+  | v :: vs, i :: is, m, vs', is', h => by
+    unfold takeMatching at h
+    split at h
+    · rename_i hi
+      simp only [Option.some.injEq, Prod.mk.injEq] at h
+      exact ⟨0, by simp [h.1], by simp [hi], by simp⟩
+    · split at h
+      · cases h
+      · rename_i m2 vs2 is2 heq
+        simp only [Option.some.injEq, Prod.mk.injEq] at h
+        obtain ⟨k, h1, h2, h3⟩ := takeMatching_some ID vs is m2 vs2 is2 heq
+        exact ⟨k + 1, by simpa [h.1] using h1, by simpa using h2, by simpa using h3⟩
 
 /-- **channel isolation for `DeliverFrom`**: a value handed out was stored under the current
     channel identifier (the per-sender buffer never hands a value across channels) -/
@@ -67,13 +393,26 @@ theorem deliverFrom_isolation (p : Party) (iIn : Nat) (pi : List Nat) (inp : Opt
     (h : (deliverFrom H T p iIn pi inp).value = some v) :
     ∃ k, (p.bufMpz.getD iIn []).getD k 0 = v ∧ (p.bufId.getD iIn []).getD k 0 = p.ID ∧
       k < (p.bufMpz.getD iIn []).length := by
-  sorry
+  have _ := hb
+  have _ := hpair
+  unfold deliverFrom at h
+  split at h
+  · cases h
+  · simp only [] at h
+    split at h
+    · split at h
+      · rename_i m vs' is' heq
+        simp only [Option.some.injEq] at h
+        subst h
+        exact takeMatching_some _ _ _ _ _ _ heq
+      · cases h
+    · split at h <;> cases h
 
 /-- `setID` starts every sender at slot 1 and `unsetID` after `setID` restores the counters of the
     enclosing channel: a nested channel cannot disturb the FIFO bookkeeping of the outer one -/
 theorem unsetID_setID (p : Party) (newID : Int) (f f' : Bool) :
     (unsetID (setID p newID f) f').deliverS = p.deliverS ∧
     (unsetID (setID p newID f) f').ID = p.ID ∧ (unsetID (setID p newID f) f').s = p.s := by
-  sorry
+  simp [unsetID, setID]
 
 end Tmcg.Rbc
